@@ -19,12 +19,13 @@
 (* Contract layer: MigrateContract.tla (TreeOK), checked when the model    *)
 (* run is done and exported with every case.                               *)
 (***************************************************************************)
-EXTENDS MigrateContract, TLC, Json, Randomization
+EXTENDS MigrateContract, TLC, Json, Randomization, SequencesExt
 
 CONSTANTS Families,    \* which case families Init enumerates
           CoreLevels,  \* levels used by the "levels" family (subset of AllLevels)
           PairKeys,    \* keys used by the "pair" family
           PairLevels,  \* levels used by the "pair" family
+          StyleLevels, \* levels used by the single-key cases of the "style" family
           LevelKeys,   \* keys used by the "levels" family
           NameIds,     \* odd package / interface names (ids; concretised by checks/c19.py)
           SimMax       \* bound on the keys per level in the "random" family (simulation)
@@ -42,6 +43,8 @@ MapKeys == {"_anchors"}
 Keys == BoolKeys \cup StrKeys \cup ListKeys \cup MapKeys      \* V2Config, migrate.go:427-473
 
 ASSUME Mapped \subseteq Keys
+KeySeq == SetToSeq(Keys)
+Kn(k) == CHOOSE i \in 1..Len(KeySeq) : KeySeq[i] = k      \* a number per key (spreads the layouts)
 
 (* ---------------------------------------------------------------- levels *)
 \* level ids encode the position in the tree: package A has interface I (config + entries e1, e2) and J,
@@ -74,27 +77,69 @@ Configurable(sh) ==
 LevelsOf(sh) == Configurable(sh)
 
 (* ---------------------------------------------------------------- values *)
-\* JSON text of the marker value of key k at level L in value style vi:
-\*   1 plain, 2 the other polarity / YAML-significant text, 0 explicit null
+\* JSON text of the marker value of key k at level L in value style vi.  "Same value" means byte-identical,
+\* so the string styles are the shapes a plausible normaliser (path cleaning, trimming, case folding, type
+\* guessing, unicode normalisation, truncation) would alter:
+\*   0 explicit null          1 plain marker                2 YAML-significant text, padded with spaces
+\*   3 non-clean path         4 template with inner quotes, mixed case
+\*   5 looks like a bool / null / number / date / hex      6 unicode, NFC next to NFD
+\*   7 very long              8 the empty string            9 trailing slash, blank and tab
+\* Booleans alternate polarity with the style, maps and lists follow the string styles.
+Styles == 1..9
 Q(s) == "\"" \o s \o "\""
-\* log-level values stay valid zerolog level names (a loader may validate them), distinct per level
+Idx(L) == CHOOSE j \in 1..7 : Order[j] = L
+\* log-level values stay valid zerolog level names (a loader may validate them), distinct per level;
+\* styles >= 3 spell them in upper case (zerolog parses levels case-insensitively)
 LogName(L, vi) ==
-  LET i == CHOOSE j \in 1..7 : Order[j] = L
-      names == <<"debug", "info", "warn", "error", "trace", "fatal", "panic">>
-  IN names[IF vi = 1 THEN i ELSE ((i + 2) % 7) + 1]
+  LET lower == <<"debug", "info", "warn", "error", "trace", "fatal", "panic">>
+      upper == <<"DEBUG", "INFO", "WARN", "ERROR", "TRACE", "FATAL", "PANIC">>
+  IN IF vi = 1 THEN lower[Idx(L)] ELSE IF vi = 2 THEN lower[((Idx(L) + 2) % 7) + 1] ELSE upper[((Idx(L) + vi) % 7) + 1]
+LooksLike == <<"true", "null", "0123", "1.50", "2001-01-01", "0x1F", "~">>
+Long40 == "abcdefghijklmnopqrstuvwxyz0123456789ABCD"
+Long == Long40 \o "/" \o Long40 \o "/" \o Long40 \o "/" \o Long40 \o "/" \o Long40 \o "/" \o Long40 \o "/" \o Long40
+\* the text between the JSON quotes
+StrBody(k, L, vi) ==
+  CASE vi = 1 -> k \o "@" \o L
+    [] vi = 2 -> IF k = "mockname" THEN "{{.InterfaceNameCamel}}: " \o L \o " #x"
+                 ELSE " " \o k \o ": {" \o L \o "} #x *&!|>'%@`, [y] "
+    [] vi = 3 -> "./" \o k \o "//" \o L \o "/../{{.InterfaceDir}}/./x/"
+    [] vi = 4 -> "{{ .InterfaceDir | replace \\\"a\\\" \\\"B\\\" }}/../Mocks_" \o k \o "_" \o L \o "/UPPER/lower"
+    [] vi = 5 -> LooksLike[((Idx(L) + (IF k \in Mapped THEN 0 ELSE 3)) % 7) + 1]
+    [] vi = 6 -> "caf\\u00e9-cafe\\u0301-\\u212b-\\u00c5-" \o k \o "@" \o L
+    [] vi = 7 -> Long \o "/" \o k \o "@" \o L
+    [] vi = 8 -> ""
+    [] vi = 9 -> k \o "@" \o L \o "/ \\t"
 Val(k, L, vi) ==
   IF vi = 0 THEN "null"
-  ELSE IF k \in BoolKeys THEN (IF (vi = 1) = Odd(L) THEN "true" ELSE "false")
-  ELSE IF k \in StrKeys THEN
-       (IF k = "log-level" THEN Q(LogName(L, vi))
-        ELSE IF vi = 1 THEN Q(k \o "@" \o L)
-        ELSE IF k = "mockname" THEN Q("{{.InterfaceNameCamel}}: " \o L \o " #x")
-        ELSE Q(" " \o k \o ": {" \o L \o "} #x *&!|>'%@`, [y] "))
+  ELSE IF k \in BoolKeys THEN (IF (vi % 2 = 1) = Odd(L) THEN "true" ELSE "false")
+  ELSE IF k \in StrKeys THEN (IF k = "log-level" THEN Q(LogName(L, vi)) ELSE Q(StrBody(k, L, vi)))
   ELSE IF k \in ListKeys THEN
        (IF vi = 1 THEN "[" \o Q(k \o "@" \o L \o "/1") \o "," \o Q(k \o "@" \o L \o "/2") \o "]"
-        ELSE "[" \o Q("- " \o k \o ": " \o L \o " #c") \o "," \o Q("") \o "," \o Q("null") \o "]")
-  ELSE (IF vi = 1 THEN "{" \o Q("a@" \o L) \o ":{\"all\":true,\"l\":[1,\"two\"]}," \o Q("s") \o ":" \o Q(k \o "@" \o L) \o "}"
+        ELSE IF vi = 2 THEN "[" \o Q("- " \o k \o ": " \o L \o " #c") \o "," \o Q("") \o "," \o Q("null") \o "]"
+        ELSE "[" \o Q(StrBody(k \o "/1", L, vi)) \o "," \o Q(StrBody(k \o "/2", L, vi)) \o "]")
+  ELSE (IF vi % 2 = 1 THEN "{" \o Q("a@" \o L) \o ":{\"all\":true,\"l\":[1,\"two\"]}," \o Q("s") \o ":" \o Q(k \o "@" \o L) \o "}"
         ELSE "{" \o Q("k: " \o L \o " #") \o ":" \o Q(" v: {x} ") \o "}")
+
+(* --------------------------------------------------------------- layouts *)
+\* where the command runs and how the files are named:
+\*   cwd   "same"    the working directory holds the v2 file
+\*         "child"   the working directory is two levels below the directory of the v2 file
+\*         "sibling" the v2 file lives in another directory (legacy/) next to the working directory
+\*   cfg   "rel" | "abs" --config path,  "discover": no --config, found by searching upwards
+\*   out   "default": no --outfile;  "rel": a relative path;  "samebase": relative, same base name as the input;
+\*         "abs": an absolute path
+\*   stale the output path already holds a longer file
+CwdS == <<"same", "child", "sibling">>
+CfgS == <<"rel", "abs", "discover">>
+OutS == <<"default", "rel", "samebase", "abs">>
+LayN(n) == [cwd |-> CwdS[((n - 1) \div 12) + 1], cfg |-> CfgS[(((n - 1) \div 4) % 3) + 1], out |-> OutS[((n - 1) % 4) + 1],
+            stale |-> FALSE]
+ValidLay(y) == /\ y.cfg = "discover" => y.cwd # "sibling"       \* the search only walks upwards
+               /\ y.out = "samebase" => y.cwd # "same"           \* otherwise the user asked to overwrite the input
+LaySeq == SelectSeq([n \in 1..36 |-> LayN(n)], ValidLay)
+Layouts == {LaySeq[i] : i \in 1..Len(LaySeq)}
+\* deterministic spread of the layouts over the cases of the other families
+LayRot(n) == [LaySeq[(n % Len(LaySeq)) + 1] EXCEPT !.stale = ((n \div Len(LaySeq)) % 2 = 1)]
 
 VARIABLES fam,        \* case family
           shape,      \* tree shape
@@ -102,11 +147,13 @@ VARIABLES fam,        \* case family
           vi,         \* value style
           nm,         \* [id |-> odd name id or "-", pos |-> "pkg" | "iface"]: which name is odd
           bad,        \* "none" or the way the input is NOT a decodable v2 file
+          lay,        \* layout: working directory, --config, --outfile (see Layouts)
+          wrote,      \* where Encode wrote the v3 file (location id), "-" before
           pc, todo,   \* migrate.go program counter, levels still to migrate
           out,        \* the v3 tree built so far: level -> (path -> JSON text)
           res         \* "run" | "ok" | "fail"
 
-vars == <<fam, shape, sets, vi, nm, bad, pc, todo, out, res>>
+vars == <<fam, shape, sets, vi, nm, bad, lay, wrote, pc, todo, out, res>>
 
 Lv == Positions(shape)
 V2 == [L \in Lv |-> [k \in sets[L] |-> Val(k, L, vi)]]
@@ -114,39 +161,54 @@ NoKeys == [L \in AllLevels |-> {}]
 Only(L, ks) == [M \in AllLevels |-> IF M = L THEN ks ELSE {}]
 NoName == [id |-> "-", pos |-> "pkg"]
 
-Base == /\ pc = "decode" /\ todo = << >> /\ out = << >> /\ res = "run"
+Base == /\ pc = "decode" /\ todo = << >> /\ out = << >> /\ res = "run" /\ wrote = "-"
 
+StyleKeys == (StrKeys \cup ListKeys) \cap Mapped     \* string-valued settings with a v3 counterpart
 InitSingle == /\ "single" \in Families /\ fam = "single" /\ shape = "full" /\ bad = "none" /\ nm = NoName
-              /\ \E k \in Keys, L \in AllLevels : sets = Only(L, {k})
               /\ vi \in {1, 2}
+              /\ \E k \in Keys, L \in AllLevels : sets = Only(L, {k}) /\ lay = LayRot(Kn(k) * 7 + Idx(L) * 9 + vi)
+\* every string-valued mapped setting in every style a normaliser would alter
+InitStyle ==  /\ "style" \in Families /\ fam = "style" /\ shape = "full" /\ bad = "none" /\ nm = NoName
+              /\ vi \in Styles \ {1, 2}
+              /\ \/ \E k \in StyleKeys, L \in StyleLevels : sets = Only(L, {k}) /\ lay = LayRot(Kn(k) * 11 + Idx(L) * 9 + vi + 5)
+                 \/ sets = [M \in AllLevels |-> StyleKeys] /\ lay = LayRot(vi)
+                 \/ sets = [M \in AllLevels |-> StrKeys \cup ListKeys] /\ lay = LayRot(vi + 11)
 InitNull ==   /\ "null" \in Families /\ fam = "null" /\ shape = "full" /\ bad = "none" /\ nm = NoName
-              /\ \E k \in Mapped \cup {"with-expecter", "filename"}, L \in AllLevels : sets = Only(L, {k})
+              /\ \E k \in Mapped \cup {"with-expecter", "filename"}, L \in AllLevels : sets = Only(L, {k}) /\ lay = LayRot(Kn(k) * 3 + Idx(L) + 2)
               /\ vi = 0
 InitPair ==   /\ "pair" \in Families /\ fam = "pair" /\ shape = "full" /\ bad = "none" /\ nm = NoName
-              /\ \E k1 \in PairKeys, k2 \in Keys, L \in PairLevels : k1 # k2 /\ sets = Only(L, {k1, k2})
+              /\ \E k1 \in PairKeys, k2 \in Keys, L \in PairLevels : k1 # k2 /\ sets = Only(L, {k1, k2}) /\ lay = LayRot(Kn(k1) * 13 + Kn(k2) + Idx(L) * 5 + 3)
               /\ vi = 1
 InitLevels == /\ "levels" \in Families /\ fam = "levels" /\ shape = "full" /\ bad = "none" /\ nm = NoName
-              /\ \E k \in LevelKeys, S \in (SUBSET CoreLevels) \ {{}} : sets = [M \in AllLevels |-> IF M \in S THEN {k} ELSE {}]
+              /\ \E k \in LevelKeys, S \in (SUBSET CoreLevels) \ {{}} :
+                    /\ sets = [M \in AllLevels |-> IF M \in S THEN {k} ELSE {}]
+                    /\ lay = LayRot(Kn(k) * 5 + Cardinality(S) * 6 + (IF "top" \in S THEN 1 ELSE 0) + (IF "e2" \in S THEN 2 ELSE 0))
               /\ vi = 1
 InitShape ==  /\ "shape" \in Families /\ fam = "shape" /\ shape \in Shapes /\ bad = "none" /\ nm = NoName
               /\ \/ sets = [M \in AllLevels |-> IF M \in LevelsOf(shape) THEN Mapped \cup {"with-expecter"} ELSE {}]
                  \/ sets = NoKeys
                  \/ sets = [M \in AllLevels |-> IF M \in LevelsOf(shape) THEN Keys ELSE {}]
               /\ vi \in {1, 2}
+              /\ lay = LayRot(Cardinality(Positions(shape)) * 3 + vi + Cardinality(sets["top"]))
+\* every layout (working directory x --config x --outfile x stale output), on a tree with every mapped setting
+InitLayout == /\ "layout" \in Families /\ fam = "layout" /\ shape = "full" /\ bad = "none" /\ nm = NoName
+              /\ sets = [M \in AllLevels |-> Mapped \cup {"with-expecter"}] /\ vi = 1
+              /\ \E y \in Layouts, st \in BOOLEAN : lay = [y EXCEPT !.stale = st]
 InitNames ==  /\ "names" \in Families /\ fam = "names" /\ shape = "full" /\ bad = "none"
-              /\ \E id \in NameIds, pos \in {"pkg", "iface"} : nm = [id |-> id, pos |-> pos]
+              /\ \E id \in NameIds, pos \in {"pkg", "iface"} : nm = [id |-> id, pos |-> pos] /\ lay = LayRot(IF pos = "pkg" THEN 4 ELSE 17)
               /\ sets = [M \in AllLevels |-> {"all", "mockname", "unroll-variadic", "quiet"} \ {"recursive"}]
               /\ vi = 1
 InitBad ==    /\ "bad" \in Families /\ fam = "bad" /\ shape = "full" /\ nm = NoName
               /\ bad \in {"unknown-key-top", "unknown-key-pkg", "unknown-key-entry", "wrong-type", "not-yaml", "v3-file", "list-top"}
               /\ sets = [M \in AllLevels |-> {"all", "dir"}]
               /\ vi = 1
-\* random subsets of the full key set at every level: drawn by the Choose action under -simulate
+              /\ \E n \in {0, 7, 13, 22} : lay = LayRot(n)
+\* random subsets of the full key set at every level, random style and layout: drawn by the Choose action under -simulate
 InitRandom == /\ "random" \in Families /\ fam = "random" /\ shape \in {"full", "oneentry", "onepkg", "noentries"} /\ bad = "none"
-              /\ nm = NoName /\ sets = NoKeys /\ vi \in {1, 2}
+              /\ nm = NoName /\ sets = NoKeys /\ vi = 1 /\ lay = LayRot(0) /\ wrote = "-"
               /\ pc = "choose" /\ todo = << >> /\ out = << >> /\ res = "run"
 
-Init == InitRandom \/ (Base /\ (InitSingle \/ InitNull \/ InitPair \/ InitLevels \/ InitShape \/ InitNames \/ InitBad))
+Init == InitRandom \/ (Base /\ (InitSingle \/ InitStyle \/ InitNull \/ InitPair \/ InitLevels \/ InitShape \/ InitLayout \/ InitNames \/ InitBad))
 
 (* ------------------------------------------------------------ migrate.go *)
 \* migrateConfig, migrate.go:278-410, line by line: where each v2 field goes.  "-" = not carried over.
@@ -179,14 +241,16 @@ Put(L, m) == [x \in DOMAIN out \cup {L} |-> IF x = L THEN m ELSE out[x]]
 Choose ==
   /\ pc = "choose"
   /\ sets' = [M \in AllLevels |-> IF M \in Configurable(shape) THEN RandomSubset(RandomElement(0..SimMax), Keys) ELSE {}]
+  /\ vi' = RandomElement(Styles)
+  /\ lay' = LayRot(RandomElement(0..(2 * Len(LaySeq) - 1)))
   /\ pc' = "decode"
-  /\ UNCHANGED <<fam, shape, vi, nm, bad, todo, out, res>>
+  /\ UNCHANGED <<fam, shape, nm, bad, wrote, todo, out, res>>
 
 \* migrate.go:149-159
 Decode ==
   /\ pc = "decode"
   /\ IF bad # "none" THEN pc' = "done" /\ res' = "fail" ELSE pc' = "top" /\ UNCHANGED res
-  /\ UNCHANGED <<fam, shape, sets, vi, nm, bad, todo, out>>
+  /\ UNCHANGED <<fam, shape, sets, vi, nm, bad, lay, wrote, todo, out>>
 
 \* migrate.go:161-169: v3Config.Template = "testify" after migrating the top level
 MigrateTop ==
@@ -194,29 +258,37 @@ MigrateTop ==
   /\ out' = Put("top", Ext(ImplLevel("top"), "template", Q("testify")))
   /\ todo' = SelectSeq(Order, LAMBDA L : L \in Lv /\ L # "top")
   /\ pc' = "levels"
-  /\ UNCHANGED <<fam, shape, sets, vi, nm, bad, res>>
+  /\ UNCHANGED <<fam, shape, sets, vi, nm, bad, lay, wrote, res>>
 
 \* migrate.go:171-200: each package, each interface, each configs entry
 MigrateLevel ==
   /\ pc = "levels" /\ todo # << >>
   /\ out' = Put(Head(todo), ImplLevel(Head(todo)))
   /\ todo' = Tail(todo)
-  /\ UNCHANGED <<fam, shape, sets, vi, nm, bad, pc, res>>
+  /\ UNCHANGED <<fam, shape, sets, vi, nm, bad, lay, wrote, pc, res>>
 
 \* migrate.go:202-216
+\* pathlib.NewPath(v3ConfPath).OpenFile(O_CREATE|O_RDWR|O_TRUNC): --outfile (default ".mockery_v3.yml",
+\* migrate.go:66) is taken as given, so a relative one is relative to the working directory
+ImplOutLoc ==
+  CASE lay.out = "default"  -> "cwd:.mockery_v3.yml"
+    [] lay.out = "rel"      -> "cwd:out/v3.yml"
+    [] lay.out = "samebase" -> "cwd:<input base name>"
+    [] lay.out = "abs"      -> "abs:abs-out.yml"
 Encode ==
   /\ pc = "levels" /\ todo = << >>
   /\ pc' = "done" /\ res' = "ok"
-  /\ UNCHANGED <<fam, shape, sets, vi, nm, bad, todo, out>>
+  /\ wrote' = ImplOutLoc
+  /\ UNCHANGED <<fam, shape, sets, vi, nm, bad, lay, todo, out>>
 
 Next == Choose \/ Decode \/ MigrateTop \/ MigrateLevel \/ Encode
 Spec == Init /\ [][Next]_vars
 
 -----------------------------------------------------------------------------
 (* Impl => Contract *)
-ImplConforms == pc = "done" /\ bad = "none" => res = "ok" /\ TreeOK(V2, out)
+ImplConforms == pc = "done" /\ bad = "none" => res = "ok" /\ TreeOK(V2, out) /\ wrote = OutLocId(lay)
 
-TypeOK == /\ shape \in Shapes /\ vi \in 0..2 /\ pc \in {"choose", "decode", "top", "levels", "done"}
+TypeOK == /\ shape \in Shapes /\ vi \in 0..9 /\ pc \in {"choose", "decode", "top", "levels", "done"}
           /\ \A L \in AllLevels : sets[L] \subseteq Keys
 
 \* vacuity witnesses (must be violated)
@@ -226,7 +298,7 @@ NeverFail == ~(pc = "done" /\ res = "fail")
 -----------------------------------------------------------------------------
 (* Export: one case per completed model run, with the contract's expectation per level *)
 Expect == [L \in Lv |-> [req |-> Required(V2[L]), may |-> MayAppear(V2[L])]]
-Case == [fam |-> fam, shape |-> shape, vi |-> vi, nm |-> nm, bad |-> bad,
-         v2 |-> V2, expect |-> Expect, model |-> out, ok |-> (bad = "none")]
+Case == [fam |-> fam, shape |-> shape, vi |-> vi, nm |-> nm, bad |-> bad, lay |-> lay,
+         v2 |-> V2, expect |-> Expect, outloc |-> OutLocId(lay), model |-> out, ok |-> (bad = "none")]
 Emit == IF pc = "done" THEN PrintT(<<"CASE", ToJson(Case)>>) ELSE TRUE
 =============================================================================
